@@ -68,6 +68,10 @@ func smartDateParseWrapper(format string, tz *time.Location, dateStage KeyBuilde
 		var atomicFormat atomic.Value
 		atomicFormat.Store("")
 
+		// What the argument yields on the empty context. The optimizer probes the stage with that value
+		// (eg. "2020-01-01 " for "2020-01-01 {0}"); it must never count as the first seen date
+		probeTime, probeStatic := EvalStaticStage(dateStage)
+
 		return KeyBuilderStage(func(context KeyBuilderContext) string {
 			strTime := dateStage(context)
 			if strTime == "" { // This is important for future optimization efforts (so an empty string won't be remembered as a valid format)
@@ -75,7 +79,8 @@ func smartDateParseWrapper(format string, tz *time.Location, dateStage KeyBuilde
 			}
 
 			liveFormat := atomicFormat.Load().(string)
-			if liveFormat == "" {
+			isProbe := !probeStatic && strTime == probeTime
+			if liveFormat == "" || isProbe {
 				// This may end up run by a few different threads, but it comes at the benefit
 				// of not needing a mutex
 				var err error
@@ -83,7 +88,9 @@ func smartDateParseWrapper(format string, tz *time.Location, dateStage KeyBuilde
 				if err != nil {
 					return ErrorParsing
 				}
-				atomicFormat.Store(liveFormat)
+				if !isProbe {
+					atomicFormat.Store(liveFormat)
+				}
 			}
 
 			val, err := time.ParseInLocation(liveFormat, strTime, tz)
